@@ -4,8 +4,13 @@
 //
 // Reads the CURRENT source, and writes a copy in which
 //   - a line `zzhook.Point("<line>:<callee>")` is inserted before every statement whose own
-//     expressions (not its nested blocks) call os.OpenFile, file.Write, os.ReadFile, os.Remove
-//     or processRunning (<line> = line of the statement in the input),
+//     expressions (not its nested blocks) make a call ON THE LOCK PATH -- os.Link, os.OpenFile,
+//     os.ReadFile, os.Remove or os.Rename with an argument that is the locker's lockFilePath
+//     (`wl.lockFilePath`) -- or call processRunning, or (code from before the repair of C10-F1,
+//     seeded changes) file.Write on the handle that os.OpenFile of the lock path returned
+//     (<line> = line of the statement in the input).  Calls on other paths -- the private
+//     temporary file of createLockFile: os.CreateTemp, tmp.Write/Chmod/Close, os.Remove(tmp.Name())
+//     -- are NOT model events (Lock.v header) and are left alone,
 //   - every `time.After` inside func Lock is replaced by `zzhook.After`,
 //   - the hook package is imported as zzhook.
 //
@@ -33,8 +38,38 @@ import (
 	"strings"
 )
 
-var targets = map[string]bool{
-	"os.OpenFile": true, "file.Write": true, "os.ReadFile": true, "os.Remove": true, "processRunning": true,
+// calls that are events whatever their arguments
+var targets = map[string]bool{"file.Write": true, "processRunning": true}
+
+// calls that are events when one of their arguments is the lock path
+var pathTargets = map[string]bool{
+	"os.Link": true, "os.OpenFile": true, "os.ReadFile": true, "os.Remove": true, "os.Rename": true,
+}
+
+// the locker's field holding the lock path, as written in the source (x.lockFilePath or lockFilePath)
+func isLockPath(fset *token.FileSet, e ast.Expr) bool {
+	var b bytes.Buffer
+	switch f := e.(type) {
+	case *ast.Ident, *ast.SelectorExpr:
+		printer.Fprint(&b, fset, f)
+	}
+	t := b.String()
+	return t == "lockFilePath" || strings.HasSuffix(t, ".lockFilePath")
+}
+
+func isTarget(fset *token.FileSet, c *ast.CallExpr) (string, bool) {
+	name := calleeName(fset, c)
+	if targets[name] {
+		return name, true
+	}
+	if pathTargets[name] {
+		for _, a := range c.Args {
+			if isLockPath(fset, a) {
+				return name, true
+			}
+		}
+	}
+	return name, false
 }
 
 type edit struct {
@@ -111,7 +146,7 @@ func (r *rewriter) callsIn(n ast.Node) []string {
 			r.block(c.Body.List)
 			return false
 		case *ast.CallExpr:
-			if name := calleeName(r.fset, c); targets[name] {
+			if name, ok := isTarget(r.fset, c); ok {
 				found = append(found, name)
 			}
 		}
